@@ -147,6 +147,17 @@ def corpus():
         if lens != [U63, U63, U63]:
             out.append(("corpus-sum", "accept" if fits else "reject", t(lens)))
     out.append(("corpus-date-2^63-1", "accept", t([1], creation_date=U63)))
+    # inputs larger than the buffers between the file / the pipe and the loader (8 KiB BufReader, 64 KiB pipe): the same
+    # report must come out for a path and for standard input (added after seeded change C07-6, a single fill_buf on stdin)
+    def big(npieces, nfiles=0):
+        info = {b"name": b"big", b"piece length": 16384, b"pieces": bytes((i * 7 + 3) % 251 for i in range(20 * npieces))}
+        if nfiles:
+            info[b"files"] = [{b"length": i + 1, b"path": [b"d%d" % (i % 9), b"f%05d" % i]} for i in range(nfiles)]
+        else:
+            info[b"length"] = 16384 * npieces
+        return {b"info": info, b"comment": b"larger than the stdio buffers"}
+    for npieces, nfiles in ((405, 0), (406, 0), (409, 0), (410, 0), (820, 0), (3300, 0), (15000, 0), (1, 300), (1, 2500)):
+        out.append(("corpus-big-%d-pieces-%d-files" % (npieces, nfiles), "accept", big(npieces, nfiles)))
     out.append(("corpus-date-year-10000", "accept", t([1], creation_date=253402300800)))
     return out
 
